@@ -239,6 +239,7 @@ func (p *Program) VerifyFunc(fi *FuncInfo) (res *FuncResult) {
 			res.Unsupported = append(res.Unsupported, fmt.Sprintf("call assertion [%s] on %s was never reached (hint-mismatch)", ca.Clause.Label, ca.Callee))
 		}
 	}
+	e.addAxioms(res)
 	res.Obligations = e.Ctx.Oblig
 	res.Unsupported = append(res.Unsupported, e.Unsup...)
 	for a := range e.Assumed {
@@ -341,4 +342,40 @@ func (e *Exec) frameObligations(final *State, c *Contract, sc *clauseScope) {
 
 func frameLabel(k string) string {
 	return strings.NewReplacer("F:", "", "MD:", "mapdom:", "MV:", "mapval:", "ML:", "maplen:", "P:", "ptr:", "G:", "ghost:").Replace(k)
+}
+
+// addAxioms adds the package-level axioms (assumed properties of library functions, listed in the
+// evidence) of every package with contracts. Axioms are global: they are part of every obligation.
+func (e *Exec) addAxioms(res *FuncResult) {
+	var pkgs []string
+	for p := range e.P.PC {
+		pkgs = append(pkgs, p)
+	}
+	sort.Strings(pkgs)
+	for _, pp := range pkgs {
+		pc := e.P.PC[pp]
+		pkg := e.P.Pkgs[pp]
+		if pkg == nil {
+			continue
+		}
+		for _, ax := range pc.Axioms {
+			sc := &clauseScope{pkg: pkg.Types, pos: token.NoPos, info: pkg.TypesInfo}
+			if err := e.P.CheckClause(nil, ax, token.NoPos, sc); err != nil {
+				res.Unsupported = append(res.Unsupported, err.Error())
+				continue
+			}
+			st := &State{PC: True, Vars: map[types.Object]Term{}, Heap: map[string]Term{}, Alloc: Term{"alloc0", SInt}}
+			e.frames = append(e.frames, &frame{info: pkg.TypesInfo, breaks: map[string][]*State{}, conts: map[string][]*State{}, labels: map[ast.Stmt]string{}, callSeen: map[string]int{}})
+			nf := len(e.Ctx.facts)
+			t := e.evalSpec(st, ax)
+			e.frames = e.frames[:len(e.frames)-1]
+			// facts produced while evaluating the axiom are definitions of its subterms: keep them global
+			for _, f := range e.Ctx.facts[nf:] {
+				e.Ctx.axioms = append(e.Ctx.axioms, f)
+			}
+			e.Ctx.facts = e.Ctx.facts[:nf]
+			e.Ctx.Axiom(t.S)
+			e.Assumed["axiom ["+ax.Label+"] of package "+shortPkg(pp)+": "+ax.Src] = true
+		}
+	}
 }
